@@ -237,7 +237,8 @@ def grid_logm(conv, apertures_au, theta_arcsec, d_kpc):
             if apertures_au is None or n_a == 1:
                 v = conv[:, 0, f]
             else:
-                v = O.interp_aperture(apertures_au, conv[:, :, f], a)
+                tab = apertures_au[f] if isinstance(apertures_au, (list, tuple)) else apertures_au      # per-band tables
+                v = O.interp_aperture(tab, conv[:, :, f], a)
             out[:, j, f] = np.log10(np.asarray(v, LD) / (LD(d) * LD(d)))
     return out
 
